@@ -111,10 +111,10 @@ def rand_number(rng, kind=None):
         return rng.uniform(-2 * math.pi, 2 * math.pi)
     if kind == "int":
         return rng.randint(-9, 9)
-    if kind == "special_float":
-        return rng.choice(SPECIAL_FLOATS)
+    if kind == "special_float":  # mostly moderate magnitudes: huge angles leave nothing to compare numerically
+        return rng.choice(SPECIAL_FLOATS if rng.random() < 0.25 else [f for f in SPECIAL_FLOATS if abs(f) < 1e6])
     if kind == "special_int":
-        return rng.choice(SPECIAL_INTS)
+        return rng.choice(SPECIAL_INTS if rng.random() < 0.25 else [i for i in SPECIAL_INTS if abs(i) < 1e6])
     if kind == "rational":
         return sympy.Rational(rng.randint(-9, 9), rng.choice([1, 2, 3, 7, 16]))
     if kind == "pi":
